@@ -852,17 +852,17 @@ API_RULE_VERIFY = ("triples are built constructively with the big-integer model 
                    "(mode, key, message, signature, variant, context)")
 
 SPECS = {
-    "C01": {"engine": "apimon", "configs": {"quick": [("K0", 1)], "thorough": [("K0", 1), ("K2", 0.1), ("K6", 0.1)]}, "floor": 3000, "rule": API_RULE_VERIFY},
-    "C02": {"engine": "apimon", "configs": {"quick": [("K0", 1)], "thorough": [("K0", 1), ("K2", 0.13), ("K6", 0.13)]}, "floor": 2500,
+    "C01": {"engine": "apimon", "configs": {"quick": [("K0", 1), ("K2", 0.25)], "thorough": [("K0", 1), ("K2", 0.1), ("K6", 0.1)]}, "floor": 3000, "rule": API_RULE_VERIFY},
+    "C02": {"engine": "apimon", "configs": {"quick": [("K0", 1), ("K2", 0.25)], "thorough": [("K0", 1), ("K2", 0.13), ("K6", 0.13)]}, "floor": 2500,
             "rule": "(seed, message, variant/context) combinations; each is signed through every option form and compared byte-for-byte with the RFC 8032 model and crypto/ed25519; all are non-trivial; distinct = FNV-64 of (seed, message, variant, context)"},
-    "C03": {"engine": "apimon", "configs": {"quick": [("K0", 1)], "thorough": [("K0", 1), ("K2", 0.2), ("K6", 0.2)]}, "floor": 1200,
+    "C03": {"engine": "apimon", "configs": {"quick": [("K0", 1), ("K2", 0.25)], "thorough": [("K0", 1), ("K2", 0.2), ("K6", 0.2)]}, "floor": 1200,
             "rule": "library-made signatures checked in single default, single ZIP-215 and as batch member (both modes) at swept positions/sizes/entropy streams; distinct = FNV-64 of (seed, message, variant, context, n, pos, entropy)"},
-    "C04": {"engine": "api+layers", "configs": {"quick": [("K0", 1)], "thorough": [("K0", 1), ("K2", 0.1), ("K6", 0.1)]}, "inside_configs": {"quick": [("K0", 1)], "thorough": [("K0", 1), ("K2", 0.3)]},
+    "C04": {"engine": "api+layers", "configs": {"quick": [("K0", 1), ("K2", 0.25)], "thorough": [("K0", 1), ("K2", 0.1), ("K6", 0.1)]}, "inside_configs": {"quick": [("K0", 1)], "thorough": [("K0", 1), ("K2", 0.3)]},
             "floor": 2000, "rule": API_RULE_VERIFY + "; plus every scMinimal call of the monitored build (driven directly with W-Sbound, every comparison word at -1/0/+1, all 256 top bytes) judged against S < L"},
-    "C05": {"engine": "apimon", "configs": {"quick": [("K0", 1)], "thorough": [("K0", 1), ("K2", 0.1), ("K6", 0.1)]}, "floor": 4000, "rule": API_RULE_VERIFY},
-    "C06": {"engine": "apimon", "configs": {"quick": [("K0", 1)], "thorough": [("K0", 1), ("K2", 0.15), ("K6", 0.15)]}, "floor": 500,
+    "C05": {"engine": "apimon", "configs": {"quick": [("K0", 1), ("K2", 0.25)], "thorough": [("K0", 1), ("K2", 0.1), ("K6", 0.1)]}, "floor": 4000, "rule": API_RULE_VERIFY},
+    "C06": {"engine": "apimon", "configs": {"quick": [("K0", 1), ("K2", 0.25)], "thorough": [("K0", 1), ("K2", 0.15), ("K6", 0.15)]}, "floor": 500,
             "rule": "one evaluation = one VerifyBatch call judged entry-by-entry against observed single verification and the model; non-trivial = batches with n > 0; distinct = FNV-64 of (n, options, entropy, first 8 keys/signatures)"},
-    "C07": {"engine": "apimon", "configs": {"quick": [("K0", 1)], "thorough": [("K0", 1), ("K2", 0.1)]}, "floor": 2000,
+    "C07": {"engine": "apimon", "configs": {"quick": [("K0", 1), ("K2", 0.25)], "thorough": [("K0", 1), ("K2", 0.1)]}, "floor": 2000,
             "rule": "ordered (signing pair, verification pair) combinations incl. one-bit / length-only context changes, plus context-length and digest-length contract probes; distinct = FNV-64 of (seed, message, p, q)"},
     "C08": {"engine": "transcript", "configs": {"quick": ["K0", "K1", "K2", "K3", "K4", "K6"], "thorough": ["K0", "K1", "K2", "K3", "K4", "K5", "K6"]}, "floor": 10000,
             "rule": "API calls (key generation, 3 signing variants, verdicts in both modes on torsion/small-order/boundary/garbage triples, batches with seeded entropy, X25519 both paths, conversions) generated once by the model and executed by one binary per build configuration; evaluations = transcript lines over all configurations; distinct = distinct calls; every call is non-trivial (its full output is compared)",
@@ -898,17 +898,17 @@ SPECS = {
             "rule": "one evaluation = one pair (reference secret, other secret) of lackey traces of the same operation with identical public inputs, compared on PC sequence, memory-op shape, static addresses and per-page-pair constant offsets of dynamic addresses; every pair is non-trivial (secrets differ); distinct = (config, op, secret pair)",
             "assumptions": ["valgrind 3.19 lackey reports every executed guest instruction and memory access of the static Go binary", "Go runtime housekeeping (allocator, scheduler, GC, other threads) is excluded from the window by symbol; library code inlined into excluded symbols does not occur",
                             "data-dependent instruction latency is not visible in a PC/address trace", "only amd64 and 386 back ends that execute here"]},
-    "C09": {"engine": "api+layers", "configs": {"quick": [("K0", 1)], "thorough": [("K0", 1), ("K2", 0.1), ("K6", 0.1)]}, "inside_configs": {"quick": [("K0", 1)], "thorough": [("K0", 1), ("K2", 0.3)]},
+    "C09": {"engine": "api+layers", "configs": {"quick": [("K0", 1), ("K2", 0.25)], "thorough": [("K0", 1), ("K2", 0.1), ("K6", 0.1)]}, "inside_configs": {"quick": [("K0", 1)], "thorough": [("K0", 1), ("K2", 0.3)]},
             "floor": 1500, "rule": API_RULE_VERIFY + "; plus every isSmallOrderVartime call of the monitored build judged against 'undecodable or [8]P = identity'"},
-    "C10": {"engine": "apimon", "configs": {"quick": [("K0", 1)], "thorough": [("K0", 1), ("K2", 0.25), ("K6", 0.1)]}, "floor": 15000,
+    "C10": {"engine": "apimon", "configs": {"quick": [("K0", 1), ("K2", 0.25)], "thorough": [("K0", 1), ("K2", 0.25), ("K6", 0.1)]}, "floor": 15000,
             "rule": "32-byte strings (special y values, all y >= p, mixed-order points in every encoding, garbage, random) decoded by the library and the model; every string is non-trivial (about half decode); distinct = FNV-64 of the string"},
-    "C11": {"engine": "apimon", "configs": {"quick": [("K0", 1)], "thorough": [("K0", 1), ("K2", 0.3), ("K3", 0.3), ("K6", 0.1)]}, "floor": 3000,
+    "C11": {"engine": "apimon", "configs": {"quick": [("K0", 1), ("K2", 0.25)], "thorough": [("K0", 1), ("K2", 0.3), ("K3", 0.3), ("K6", 0.1)]}, "floor": 3000,
             "rule": "(scalar, point, path) cases: digit-pattern scalars, all single-bit scalars, low-order / non-canonical u, all lengths; judged by the RFC 7748 ladder model; non-trivial = both arguments 32 bytes; distinct = FNV-64 of (scalar, point, path)"},
-    "C12": {"engine": "apimon", "configs": {"quick": [("K0", 1)], "thorough": [("K0", 1), ("K2", 0.2), ("K6", 0.1)]}, "floor": 4000,
+    "C12": {"engine": "apimon", "configs": {"quick": [("K0", 1), ("K2", 0.25)], "thorough": [("K0", 1), ("K2", 0.2), ("K6", 0.1)]}, "floor": 4000,
             "rule": "seeds (commutation) and 32-byte public-key strings (conversion vs (1+y)/(1-y) and decodability); distinct = FNV-64 of the input"},
-    "C13": {"engine": "apimon", "configs": {"quick": [("K0", 1)], "thorough": [("K0", 1), ("K1", 0.1), ("K2", 0.1)]}, "floor": 20000,
+    "C13": {"engine": "apimon", "configs": {"quick": [("K0", 1), ("K2", 0.25)], "thorough": [("K0", 1), ("K1", 0.1), ("K2", 0.1)]}, "floor": 20000,
             "rule": "API calls with hostile argument shapes (lengths 0..70, nil/empty, aliasing, canary-guarded capacity); distinct = FNV-64 of (op, alias, options, first arguments)"},
-    "C14": {"engine": "apimon", "configs": {"quick": [("K0", 1)], "thorough": [("K0", 1), ("K2", 0.1)]}, "floor": 1500,
+    "C14": {"engine": "apimon", "configs": {"quick": [("K0", 1), ("K2", 0.25)], "thorough": [("K0", 1), ("K2", 0.1)]}, "floor": 1500,
             "rule": "GenerateKey under instrumented readers (exact/long/1-byte/chunked/short at k/error at k) and key-object coherence probes; distinct = FNV-64 of (stream prefix, reader kind, k) or seed"},
 }
 
